@@ -152,46 +152,7 @@ def run(P: Program, R: Report, tier: str) -> None:
     R.floor("R06.4", "matrix cells", ncell, 3)
 
     # ---- R06.5 monotone maxima
-    n = 0
-    for m in ann.methods.values():
-        bulk = any(
-            isinstance(s, ast.Assign) and any(isinstance(t, ast.Attribute) and t.attr in {f["map"] for f in fams} for t in s.targets)
-            for s in ast.walk(m.node)
-        )
-        for fam in fams:
-            inserts = [
-                s for s in ast.walk(m.node)
-                if (isinstance(s, ast.Assign) and any(isinstance(t, ast.Subscript) and norm(t.value) == f"self.{fam['map']}" for t in s.targets))
-                or (isinstance(s, ast.Call) and isinstance(s.func, ast.Attribute) and s.func.attr in ("extend", "append", "setdefault")
-                    and norm(s.func.value).startswith(f"self.{fam['map']}"))
-            ]
-            assigns = [s for s in ast.walk(m.node) if isinstance(s, ast.Assign) and any(norm(t) == f"self.{fam['max']}" for t in s.targets)]
-            for a in assigns:
-                n += 1
-                if bulk or m.name == "__init__":
-                    R.ok("R06.5", m, a, f"{m.short}: {fam['max']} installed together with a freshly built map", via="bulk")
-                    continue
-                v = norm(a.value)
-                mono = False
-                # max(self.max, x)  or  guarded by  x > self.max
-                if isinstance(a.value, ast.Call) and call_name(a.value) in ("max", "maximum") and f"self.{fam['max']}" in v:
-                    mono = True
-                for blk in ast.walk(m.node):
-                    if isinstance(blk, ast.If) and a in blk.body and isinstance(blk.test, ast.Compare) and len(blk.test.ops) == 1:
-                        L, Rr, op = norm(blk.test.left), norm(blk.test.comparators[0]), blk.test.ops[0]
-                        if (L == v and Rr == f"self.{fam['max']}" and isinstance(op, (ast.Gt, ast.GtE))) or (
-                            Rr == v and L == f"self.{fam['max']}" and isinstance(op, (ast.Lt, ast.LtE))):
-                            mono = True
-                R.check(mono, "R06.5", m, a, f"{m.short}: {fam['max']} only ever grows on incremental paths",
-                        f"`{norm(a)}` can lower the maximum: a later get_next id may be a live id", via="monotone-form")
-            if inserts and not bulk and m.name != "__init__" and not any(isinstance(s, ast.Delete) for s in ()):
-                has_raise = bool(assigns)
-                adds_new_key = any(isinstance(s, ast.Assign) for s in inserts) or any(isinstance(s, ast.Call) and s.func.attr == "setdefault" for s in inserts if isinstance(s, ast.Call))
-                if adds_new_key:
-                    n += 1
-                    R.check(has_raise, "R06.5", m, inserts[0], f"{m.short}: inserting an id into {fam['map']} raises {fam['max']}",
-                            "a new id enters the lookup without the maximum being raised", via="pairing")
-    R.floor("R06.5", "maximum updates", n, 4)
+    monotone_maxima(P, R, ann, fams, "R06.5")
 
     # ---- R06.6 new node ids
     fresh_node_ids(P, R)
@@ -389,7 +350,7 @@ def fresh_node_ids(P: Program, R: Report) -> None:
                 R.undecided("R06.6", holder, lp, "the checked id is what the helper returns", "return shape not recognised")
 
 
-def no_wholesale_replace(P: Program, R: Report, ann, fams) -> None:
+def no_wholesale_replace(P: Program, R: Report, ann, fams, rule: str = "R06.10") -> None:
     """R06.10: an existing entry of an id -> nodes map is never replaced wholesale.  `MAP[new] = <nodes>` is only right
     when `new` has no entry yet; when a whole tracklet is merged INTO an existing id (join of two tracks, sibling adopts
     the parent's id) the members already listed under `new` drop out of the lookup."""
@@ -409,10 +370,10 @@ def no_wholesale_replace(P: Program, R: Report, ann, fams) -> None:
 
                 gs = [g_.replace(" ", "") for g_ in guards_of(m, s_)]
                 guarded = f"{k}notin{mp}".replace(" ", "") in gs
-                R.check(empty or guarded, "R06.10", m, s_, f"{m.short}: an entry of {fam['map']} is created only when the id has none",
+                R.check(empty or guarded, rule, m, s_, f"{m.short}: an entry of {fam['map']} is created only when the id has none",
                         f"`{norm(s_)[:80]}` can replace the list already stored under `{k}`: when nodes are moved INTO an id that is in use, "
                         "its earlier members vanish from the lookup (neighbour and presence queries then miss them)", via="guard-shape")
-    R.count("R06.10 entry assignments", n)
+    R.count(f"{rule} entry assignments", n)
 
 
 def family_independence(P: Program, R: Report, ann, fams) -> None:
@@ -481,3 +442,51 @@ def positional_reads(P: Program, R: Report) -> None:
                 f"`{norm(pos[0])[:50]}` takes an element by position, but the list is in joining order (a node re-added by undo is appended at the end): "
                 "the query disagrees with a scan of the graph" if pos else "", via="order-dependence")
     R.floor("R06.11", "SolutionTracks queries over the per-id lists", n, 1)
+
+
+def monotone_maxima(P: Program, R: Report, ann, fams, rule: str, only_key: str | None = None, floor: int = 4) -> None:
+    """The maximum that `get_next_*_id()` is derived from only ever grows on incremental paths, and every insertion of a
+    new id into a lookup raises it: a lowered maximum hands out an id that is still in use."""
+    if only_key is not None:
+        fams = [f_ for f_ in fams if only_key in f_["key"]]
+    n = 0
+    for m in ann.methods.values():
+        bulk = any(
+            isinstance(s, ast.Assign) and any(isinstance(t, ast.Attribute) and t.attr in {f["map"] for f in fams} for t in s.targets)
+            for s in ast.walk(m.node)
+        )
+        for fam in fams:
+            inserts = [
+                s for s in ast.walk(m.node)
+                if (isinstance(s, ast.Assign) and any(isinstance(t, ast.Subscript) and norm(t.value) == f"self.{fam['map']}" for t in s.targets))
+                or (isinstance(s, ast.Call) and isinstance(s.func, ast.Attribute) and s.func.attr in ("extend", "append", "setdefault")
+                    and norm(s.func.value).startswith(f"self.{fam['map']}"))
+            ]
+            assigns = [s for s in ast.walk(m.node) if isinstance(s, ast.Assign) and any(norm(t) == f"self.{fam['max']}" for t in s.targets)]
+            for a in assigns:
+                n += 1
+                if bulk or m.name == "__init__":
+                    R.ok(rule, m, a, f"{m.short}: {fam['max']} installed together with a freshly built map", via="bulk")
+                    continue
+                v = norm(a.value)
+                mono = False
+                # max(self.max, x)  or  guarded by  x > self.max
+                if isinstance(a.value, ast.Call) and call_name(a.value) in ("max", "maximum") and f"self.{fam['max']}" in v:
+                    mono = True
+                for blk in ast.walk(m.node):
+                    if isinstance(blk, ast.If) and a in blk.body and isinstance(blk.test, ast.Compare) and len(blk.test.ops) == 1:
+                        L, Rr, op = norm(blk.test.left), norm(blk.test.comparators[0]), blk.test.ops[0]
+                        if (L == v and Rr == f"self.{fam['max']}" and isinstance(op, (ast.Gt, ast.GtE))) or (
+                            Rr == v and L == f"self.{fam['max']}" and isinstance(op, (ast.Lt, ast.LtE))):
+                            mono = True
+                R.check(mono, rule, m, a, f"{m.short}: {fam['max']} only ever grows on incremental paths",
+                        f"`{norm(a)}` can lower the maximum: a later get_next id may be a live id", via="monotone-form")
+            if inserts and not bulk and m.name != "__init__" and not any(isinstance(s, ast.Delete) for s in ()):
+                has_raise = bool(assigns)
+                adds_new_key = any(isinstance(s, ast.Assign) for s in inserts) or any(isinstance(s, ast.Call) and s.func.attr == "setdefault" for s in inserts if isinstance(s, ast.Call))
+                if adds_new_key:
+                    n += 1
+                    R.check(has_raise, rule, m, inserts[0], f"{m.short}: inserting an id into {fam['map']} raises {fam['max']}",
+                            "a new id enters the lookup without the maximum being raised", via="pairing")
+    R.floor(rule, "maximum updates", n, floor)
+
